@@ -1,2 +1,81 @@
+(** C05 — non-vacuity: a concrete scenario meets the hypotheses of the exported theorems and
+    exercises truncation, failure after ante, self-destruct; and measurements the checker refuses. *)
 From Coq Require Import List Bool Arith ZArith Lia.
-Require Import Nib.C05.Model Nib.C05.Spec Nib.C05.Facts Nib.C05.Proofs.
+Import ListNotations.
+Require Import Nib.C05.Model Nib.C05.Spec Nib.C05.Facts Nib.C05.Proofs Nib.C05.Check.
+Open Scope Z_scope.
+
+Definition e0 : env :=
+  {| e_signer := 0; e_collector := 1; e_universe := universe; e_base_fee := 1000000000000; e_block_gas := 100000000 |}.
+Definition b0 : bank := bank_of [1000000000000; 7; 0; 50; 0; 0; 100; 0; 0] 5000000000000.
+
+Definition legacy (gp : Z) : fee_params := {| f_type := Legacy; f_gas_price := gp; f_tip := 0; f_cap := 0 |}.
+Definition dyn (tip cap : Z) : fee_params := {| f_type := DynamicFee; f_gas_price := 0; f_tip := tip; f_cap := cap |}.
+Definition mktx f L v to_ evm_ u_ : etx :=
+  {| t_fee := f; t_gas := L; t_value := v; t_to := to_; t_intrinsic := 21000; t_evm := evm_; t_gas_used := u_ |}.
+
+(* odd price, plain transfer *)
+Definition t_odd := mktx (legacy 1500000000001) 50000 1000000000000 2%nat (EvmOk []) 21000.
+(* gas below intrinsic: fails in the msg server *)
+Definition t_low := mktx (legacy 1000000000000) 20000 1000000000000 2%nat (EvmOk []) 0.
+(* contract forwards a sub-unibi amount: one unibi disappears *)
+Definition t_fwd := mktx (legacy 1000000000001) 321696 2000000000001 3%nat (EvmOk [OTransfer 3 4 999999999999]) 31097.
+(* self-destruct to self *)
+Definition t_sds := mktx (dyn 300000000007 1300000000006) 321636 1000000000000 3%nat (EvmOk [OSuicide 3 3]) 26755.
+(* revert *)
+Definition t_rev := mktx (legacy 0) 100000 3000000000000 3%nat EvmFail 64603.
+
+Lemma e0_wf : env_wf e0.
+Proof.
+  constructor; simpl; try lia; try (intuition congruence).
+  repeat (constructor; [simpl; intuition discriminate|]). constructor.
+Qed.
+
+Lemma b0_nonneg : nonneg (bal b0).
+Proof. intro a. do 9 (destruct a as [|a]; [vm_compute; congruence|]). vm_compute. congruence. Qed.
+
+Example txs_wf : Forall (tx_wf e0) [t_odd; t_low; t_fwd; t_sds; t_rev].
+Proof. repeat constructor; simpl; lia. Qed.
+
+Definition show (r : bank * outcome) : outcome * list Z * Z := (snd r, map (bal (fst r)) universe, supply (fst r)).
+
+Example deliver_nonvacuous :
+  show (deliver e0 b0 t_odd) = (Ok,     [999999968499; 31507; 1; 50; 0; 0; 100; 0; 0], 5000000000000) /\
+  show (deliver e0 b0 t_low) = (MsgErr, [999999980000; 20007; 0; 50; 0; 0; 100; 0; 0], 5000000000000) /\
+  show (deliver e0 b0 t_fwd) = (Ok,     [999999968901; 31104; 0; 51; 0; 0; 100; 0; 0], 4999999999999) /\
+  show (deliver e0 b0 t_sds) = (Ok,     [999999965218; 34788; 0; 0; 0; 0; 100; 0; 0],  4999999999949) /\
+  show (deliver e0 b0 t_rev) = (VmErr,  [999999935397; 64610; 0; 50; 0; 0; 100; 0; 0], 5000000000000).
+Proof. vm_compute. repeat split; reflexivity. Qed.
+
+Example history_nonvacuous :
+  snd (run e0 b0 [t_odd; t_low; t_fwd; t_sds; t_rev]) = [Ok; MsgErr; Ok; Ok; VmErr] /\
+  supply (fst (run e0 b0 [t_odd; t_low; t_fwd; t_sds; t_rev])) = 4999999999947.
+Proof. vm_compute. split; reflexivity. Qed.
+
+Example bounds_nonvacuous :
+  (* 21000 gas at 1.500000000001e12 wei: pays 31500 unibi; 31500e12 is within 1e12 of 21000 * p *)
+  net_payment 50000 21000 1500000000001 = 31500 /\ prepay 50000 1500000000001 = 75000 /\ refund 50000 21000 1500000000001 = 43500.
+Proof. vm_compute. repeat split; reflexivity. Qed.
+
+(** the checker refuses a measurement in which 5 unibi appear from nowhere (the pre-72672e0 shape) … *)
+Example checker_rejects_mint :
+  Pb {| m_env := e0; m_tx := mktx (legacy 1000000000000) 322116 0 6%nat (EvmOk [OTransfer 6 7 5000000000000]) 92514;
+        m_out := Ok; m_before := b0;
+        m_after := bank_of [999999907486; 92521; 0; 50; 0; 0; 100; 5; 0] 5000000000005 |} = false.
+Proof. vm_compute. reflexivity. Qed.
+
+(** … a refund computed from the gas limit instead of the leftover … *)
+Example checker_rejects_full_refund :
+  Pb {| m_env := e0; m_tx := t_odd; m_out := Ok; m_before := b0;
+        m_after := bank_of [999999999999; 7; 1; 50; 0; 0; 100; 0; 0] 5000000000000 |} = false.
+Proof. vm_compute. reflexivity. Qed.
+
+(** … and a failed tx that moved somebody else's balance; but accepts the model's own measurements *)
+Example checker_rejects_failed_tx_side_effect :
+  Pb {| m_env := e0; m_tx := t_rev; m_out := VmErr; m_before := b0;
+        m_after := bank_of [999999935397; 64610; 0; 49; 1; 0; 100; 0; 0] 5000000000000 |} = false.
+Proof. vm_compute. reflexivity. Qed.
+
+Example checker_accepts_model :
+  forallb (fun t => Pb (mk e0 b0 t (snd (deliver e0 b0 t)) (fst (deliver e0 b0 t)))) [t_odd; t_low; t_fwd; t_sds; t_rev] = true.
+Proof. vm_compute. reflexivity. Qed.
